@@ -76,7 +76,9 @@ def check_state(job):
     w = None
     if c["weighted"]:
         w = rs.choice([0.0, 1.0, 4.0, 0.25], size=kshape)
-    E = np.vstack([np.diag(np.sqrt(w).ravel() if w is not None else np.ones(F.shape[0])) @ F @ np.diag(mps[k].ravel()) for k in range(nc)])
+        if seed % 3 == 0:
+            w = rs.choice([0, 1, 2, 3], size=kshape).astype([np.uint8, np.int16, np.int64][seed % 9 // 3])   # e.g. averages per line stored as small integers
+    E = np.vstack([np.diag(np.sqrt(w.astype(np.float64)).ravel() if w is not None else np.ones(F.shape[0])) @ F @ np.diag(mps[k].ravel()) for k in range(nc)])
     bsz = None if c["batch"] == 0 else c["batch"]
     mps0 = mps.copy()
     with warnings.catch_warnings():
